@@ -471,7 +471,7 @@ def coqchk_props(ctx, pid):
 
 # ----------------------------------------------------------------------------- translator paths2coq (C08, C14)
 PATHS_FUNCS = ["util.analyse_paths", "util._strip_path_tail", "util.path_string", "util._val_to_num",
-               "writer.partition_on_columns (directory naming)"]
+               "writer.partition_on_columns (directory naming)", "api.paths_to_cats", "api._path_to_cats"]
 
 
 def paths_translator(ctx):
